@@ -20,12 +20,16 @@ const (
 
 func init() {
 	Registry["C05"] = Spec{
-		Pkgs: map[string][]string{"v2": {"lexer", "astparser", "astprinter", "ast", "cachectl"}},
+		Pkgs: map[string][]string{"v2": {"lexer", "astparser", "astprinter", "astvisitor", "ast", "cachectl"}},
 		Run:  runC05,
 		Explanation: "Decides the structural half of 'lexing terminates and every parsed kind is printed': every unbounded loop of the lexer, the tokenizer and the Cache-Control lexer/parser advances the input position (directly or through a function that does so on all its paths) on every cycle that returns to the loop head, and has an exit guarded by an end-of-input test (EOF case, bounds test, or the negation of a character-class predicate that rejects EOF); " +
-			"the value-kind dispatches of the printer / JSON writer / copier / comparer cover all nine value kinds or fail loudly; every printer callback is registered and the Definition/Extension sibling handlers of each type kind set the same printer state. " +
+			"the value-kind dispatches of the printer / JSON writer / copier / comparer cover all nine value kinds or fail loudly; every printer callback is registered and the Definition/Extension sibling handlers of each type kind set the same printer state and print the same parts of the node; every content field of an AST node that the parser fills is read on the print path (printer callbacks, the SimpleWalker that drives them, their callees), per Document slice the node ends up in. " +
 			"Not decided: absence of panics on arbitrary bytes, positions inside the input, print∘parse round-trip equality, limit accounting (value level); termination of the recursive-descent parser itself is NOT claimed (its loops rely on a report-error-then-exit idiom that needs a consume-or-report summary this checker does not have — see DESIGN §2 C05).",
 		Mutants: []Mutant{
+			{Name: "schema description not printed (the repaired defect F13)", File: "v2/pkg/astprinter/astprinter.go", Rule: "C05-R4", Key: "parsed-is-printed/SchemaDefinitions:SchemaDefinition.Description",
+				Old: "\tif p.document.SchemaDefinitions[ref].Description.IsDefined {\n\t\tp.must(p.document.PrintDescription(p.document.SchemaDefinitions[ref].Description, nil, 0, p.out))\n\t\tp.write(literal.LINETERMINATOR)\n\t}\n", New: ""},
+			{Name: "simple walker no longer visits the directives of a schema definition (seeded change C05-12)", File: "v2/pkg/astvisitor/simplevisitor.go", Rule: "C05-R4", Key: "parsed-is-printed/SchemaDefinitions:SchemaDefinition.HasDirectives",
+				Old: "\tif w.document.SchemaDefinitions[ref].HasDirectives {\n\t\tfor _, i := range w.document.SchemaDefinitions[ref].Directives.Refs {\n\t\t\tw.walkDirective(i)\n\t\t}\n\t}\n", New: ""},
 			{Name: "implements clause of interface extensions not printed (the repaired defect F11)", File: "v2/pkg/astprinter/astprinter.go", Rule: "C05-R3", Key: "printer-siblings-content/InterfaceType",
 				Old: "\tif len(p.document.InterfaceTypeExtensions[ref].ImplementsInterfaces.Refs) != 0 {\n\t\tp.write(literal.IMPLEMENTS)\n\t\tp.write(literal.SPACE)\n\t\tfor i, j := range p.document.InterfaceTypeExtensions[ref].ImplementsInterfaces.Refs {",
 				New: "\tif false {\n\t\tp.write(literal.IMPLEMENTS)\n\t\tp.write(literal.SPACE)\n\t\tfor i, j := range []int{} {"},
@@ -81,6 +85,10 @@ func runC05(r *fw.Run) {
 	r.Rule("C05-R3", "every astvisitor callback the printer implements is registered; for each type kind the Definition and Extension handlers of the printer assign the same printer state fields")
 	wiringObligations(r, "C05-R3", "astprinter", nil)
 	definitionExtensionSiblings(r, "C05-R3")
+
+	// ---- R4 parser/printer agreement ------------------------------------------------------------------
+	r.Rule("C05-R4", "every content field of an AST node that the parser fills is read on the print path (printer callbacks, the SimpleWalker driving them, and their callees)")
+	parsePrintAgreement(r, "C05-R4")
 }
 
 // checkProgress implements the loop-progress rule for one package and returns the number of loops examined.
@@ -727,4 +735,270 @@ func definitionExtensionSiblings(r *fw.Run, rule string) {
 			"the sibling handlers disagree on: "+strings.Join(diff, ", ")+" — that part of an `extend` definition is parsed but never printed, so print(parse(x)) re-parses to a different document")
 	}
 	r.Expect(rule, "definition/extension handler pairs (content)", m, 6)
+}
+
+// parsePrintAgreement (R4): every content field of an AST node that the parser fills is read on the print path (the
+// printer's callbacks, the SimpleWalker that drives them, and the functions they call). A field that is parsed but never
+// looked at while printing cannot survive print∘parse.
+func parsePrintAgreement(r *fw.Run, rule string) {
+	p := r.Prog
+	astPk, parserPk := p.Pkg("ast"), p.Pkg("astparser")
+	if astPk == nil || parserPk == nil || p.Pkg("astprinter") == nil || p.Pkg("astvisitor") == nil {
+		r.Error("%s: packages ast/astparser/astprinter/astvisitor not loaded", rule)
+		return
+	}
+	// node struct types: element types of the slices of ast.Document
+	nodeTypes := map[string]*types.Struct{}
+	if doc := p.Named("ast", "Document"); doc != nil {
+		if st, ok := doc.Underlying().(*types.Struct); ok {
+			for i := 0; i < st.NumFields(); i++ {
+				if sl, ok := st.Field(i).Type().Underlying().(*types.Slice); ok {
+					if n, ok := sl.Elem().(*types.Named); ok && n.Obj().Pkg() == astPk.Types {
+						if s2, ok := n.Underlying().(*types.Struct); ok {
+							nodeTypes[n.Obj().Name()] = s2
+						}
+					}
+				}
+			}
+		}
+	}
+	isAstNode := func(pkgPath, tn string) bool {
+		return strings.HasSuffix(pkgPath, "/pkg/ast") && nodeTypes[tn] != nil
+	}
+	// W: written by the parser
+	written := map[string]map[string]token.Pos{}
+	writtenTo := map[string]map[string]bool{} // "Type.Field" → Document slices the written node ends up in ("*": unknown)
+	var appendsTo map[string]bool             // Document slices the current parser function appends to
+	noteW := func(tn, f string, pos token.Pos) {
+		if written[tn] == nil {
+			written[tn] = map[string]token.Pos{}
+		}
+		if _, ok := written[tn][f]; !ok {
+			written[tn][f] = pos
+		}
+		if writtenTo[tn+"."+f] == nil {
+			writtenTo[tn+"."+f] = map[string]bool{}
+		}
+		if len(appendsTo) == 0 {
+			writtenTo[tn+"."+f]["*"] = true
+		}
+		for sl := range appendsTo {
+			writtenTo[tn+"."+f][sl] = true
+		}
+	}
+	pinfo := parserPk.TypesInfo
+	for _, fi := range p.Funcs("astparser") {
+		if !strings.HasPrefix(fi.Name(), "Parser.") {
+			continue
+		}
+		appendsTo = map[string]bool{}
+		fw.WalkAll(fi.Decl.Body, func(nd ast.Node) bool {
+			if c, ok := nd.(*ast.CallExpr); ok && fw.Builtin(pinfo, c) == "append" && len(c.Args) > 0 {
+				if v, sel := fw.Field(pinfo, c.Args[0]); v != nil {
+					if pkgPath, tn := fw.FieldOwner(pinfo, sel); tn == "Document" && strings.HasSuffix(pkgPath, "/pkg/ast") {
+						if sl, ok := v.Type().Underlying().(*types.Slice); ok {
+							if n, ok := sl.Elem().(*types.Named); ok && nodeTypes[n.Obj().Name()] != nil {
+								appendsTo[v.Name()] = true
+							}
+						}
+					}
+				}
+			}
+			return true
+		})
+		fw.WalkAll(fi.Decl.Body, func(nd ast.Node) bool {
+			switch x := nd.(type) {
+			case *ast.CompositeLit:
+				if n, ok := pinfo.TypeOf(x).(*types.Named); ok && n.Obj().Pkg() != nil && isAstNode(n.Obj().Pkg().Path(), n.Obj().Name()) {
+					for _, el := range x.Elts {
+						if kv, ok := el.(*ast.KeyValueExpr); ok {
+							if id, isID := kv.Key.(*ast.Ident); isID {
+								if fv, _ := pinfo.Uses[id].(*types.Var); fv != nil && fv.Embedded() {
+									continue // the embedded definition of an extension: its fields are recorded where they are written
+								}
+							}
+							noteW(n.Obj().Name(), types.ExprString(kv.Key), kv.Pos())
+						}
+					}
+				}
+			default:
+				for _, t := range fw.WriteTargets(pinfo, nd) {
+					if v, sel := fw.Field(pinfo, t); v != nil {
+						if pkgPath, tn := fw.FieldOwner(pinfo, sel); isAstNode(pkgPath, tn) {
+							noteW(tn, v.Name(), t.Pos())
+						}
+					}
+				}
+			}
+			return true
+		})
+	}
+	// Document slices per element type; extension slices also hold the node type they embed
+	docSlices := map[string][]string{} // node type → slices whose elements contain it (directly or embedded)
+	if doc := p.Named("ast", "Document"); doc != nil {
+		st := doc.Underlying().(*types.Struct)
+		for i := 0; i < st.NumFields(); i++ {
+			sl, ok := st.Field(i).Type().Underlying().(*types.Slice)
+			if !ok {
+				continue
+			}
+			n, ok := sl.Elem().(*types.Named)
+			if !ok || nodeTypes[n.Obj().Name()] == nil {
+				continue
+			}
+			docSlices[n.Obj().Name()] = append(docSlices[n.Obj().Name()], st.Field(i).Name())
+			es := nodeTypes[n.Obj().Name()]
+			for j := 0; j < es.NumFields(); j++ {
+				if es.Field(j).Embedded() {
+					if en, ok := es.Field(j).Type().(*types.Named); ok && nodeTypes[en.Obj().Name()] != nil {
+						docSlices[en.Obj().Name()] = append(docSlices[en.Obj().Name()], st.Field(i).Name())
+					}
+				}
+			}
+		}
+	}
+	// R: read on the print path = closure of static callees from the printer's methods and the SimpleWalker's methods.
+	// A read is attributed to the Document slice it goes through (d.<Slice>[i]. … .F, also through a local alias of the
+	// element); a read whose root cannot be resolved counts for every slice.
+	work := []*fw.FuncInfo{}
+	seen := map[*types.Func]bool{}
+	push := func(fi *fw.FuncInfo) {
+		if fi != nil && !seen[fi.Obj] {
+			seen[fi.Obj] = true
+			work = append(work, fi)
+		}
+	}
+	for _, fi := range p.Funcs("astprinter") {
+		push(fi)
+	}
+	for _, fi := range p.Funcs("astvisitor") {
+		if strings.HasPrefix(fi.Name(), "SimpleWalker.") {
+			push(fi)
+		}
+	}
+	read := map[string]map[string]bool{} // slice ("*" = any) → "Type.Field"
+	noteR := func(slice, tf string) {
+		if read[slice] == nil {
+			read[slice] = map[string]bool{}
+		}
+		read[slice][tf] = true
+	}
+	for len(work) > 0 {
+		fi := work[len(work)-1]
+		work = work[:len(work)-1]
+		info := fi.Info()
+		alias := map[types.Object]string{}
+		var sliceOf func(e ast.Expr) string
+		sliceOf = func(e ast.Expr) string {
+			for {
+				switch x := ast.Unparen(e).(type) {
+				case *ast.SelectorExpr:
+					e = x.X
+				case *ast.StarExpr:
+					e = x.X
+				case *ast.UnaryExpr:
+					e = x.X
+				case *ast.IndexExpr:
+					if v, sel := fw.Field(info, x.X); v != nil {
+						if pkgPath, tn := fw.FieldOwner(info, sel); tn == "Document" && strings.HasSuffix(pkgPath, "/pkg/ast") {
+							return v.Name()
+						}
+					}
+					e = x.X
+				case *ast.Ident:
+					return alias[info.Uses[x]]
+				default:
+					return ""
+				}
+			}
+		}
+		fw.WalkAll(fi.Decl.Body, func(nd ast.Node) bool {
+			if as, ok := nd.(*ast.AssignStmt); ok && len(as.Lhs) == len(as.Rhs) {
+				for i, l := range as.Lhs {
+					if id, ok := l.(*ast.Ident); ok {
+						if o := info.Defs[id]; o != nil {
+							if sl := sliceOf(as.Rhs[i]); sl != "" {
+								alias[o] = sl
+							}
+						}
+					}
+				}
+			}
+			return true
+		})
+		fw.WalkAll(fi.Decl.Body, func(nd ast.Node) bool {
+			switch x := nd.(type) {
+			case *ast.CallExpr:
+				if fn := fw.Callee(info, x); fn != nil {
+					push(p.FuncOf(fn))
+				}
+			case *ast.SelectorExpr:
+				if v, sel := fw.Field(info, x); v != nil {
+					if pkgPath, tn := fw.FieldOwner(info, sel); isAstNode(pkgPath, tn) {
+						sl := sliceOf(x.X)
+						if sl == "" {
+							sl = "*"
+						}
+						noteR(sl, tn+"."+v.Name())
+					}
+				}
+			}
+			return true
+		})
+	}
+	n := 0
+	var tns []string
+	for tn := range written {
+		tns = append(tns, tn)
+	}
+	sort.Strings(tns)
+	for _, tn := range tns {
+		var fs []string
+		for f := range written[tn] {
+			fs = append(fs, f)
+		}
+		sort.Strings(fs)
+		st := nodeTypes[tn]
+		for _, f := range fs {
+			// positions are not content
+			isPos := false
+			for i := 0; i < st.NumFields(); i++ {
+				if st.Field(i).Name() == f {
+					if named, _ := st.Field(i).Type().(*types.Named); named != nil && named.Obj().Pkg() != nil && named.Obj().Pkg().Name() == "position" {
+						isPos = true
+					}
+				}
+			}
+			if isPos {
+				continue
+			}
+			var slices []string
+			for _, sl := range docSlices[tn] {
+				if writtenTo[tn+"."+f][sl] || writtenTo[tn+"."+f]["*"] {
+					slices = append(slices, sl)
+				}
+			}
+			if len(slices) == 0 {
+				slices = []string{"*"}
+			}
+			for _, sl := range slices {
+				n++
+				key := "parsed-is-printed/" + sl + ":" + tn + "." + f
+				if sl == "*" {
+					key = "parsed-is-printed/" + tn + "." + f
+				}
+				ok := read[sl][tn+"."+f] || read["*"][tn+"."+f]
+				if sl == "*" { // destination unknown: read through any slice counts
+					for _, m := range read {
+						if m[tn+"."+f] {
+							ok = true
+						}
+					}
+				}
+				r.Check(ok, rule, key, p.Pos(written[tn][f]), tn+"."+f+", which the parser fills, is read on the print path for the nodes of Document."+sl,
+					"the parser stores "+tn+"."+f+" but neither the printer, nor the SimpleWalker that drives it, nor any function they call ever reads it for the elements of Document."+sl+": that part of a document is dropped by print, so parse(print(d)) is structurally different from d")
+			}
+		}
+	}
+	r.Expect(rule, "content fields of AST nodes filled by the parser", n, 150)
 }
